@@ -1,4 +1,5 @@
 import WowVerif.Model.C19Ffi
+import WowVerif.Model.C19Buf
 import WowVerif.Model.Dispatch08
 namespace Wv.Drv
 open Wv.Ffi
@@ -27,6 +28,18 @@ def c19 (s : St) (toks : List String) : Option (St × String) :=
   | ["c19", "findfirst", ah, t] => do fin (findFirst s (← ah.toNat?) (← t.toNat?))
   | ["c19", "findnext", h] => do fin (findNext s (← h.toNat?))
   | ["c19", "findclose", h] => do fin (findClose s (← h.toNat?))
+  -- caller buffers: what the call writes from offset 0 of the buffer (`none`: it fails and writes nothing)
+  | ["c19buf", "archname", path, cap] => do
+      match Wv.Buf.archiveName (← Wv.bytesOfHex path) (← cap.toNat?) with
+      | some w => pure (s, "ok " ++ Wv.hexOfBytes w)
+      | none => pure (s, "err")
+  | ["c19buf", "filename", name] => do
+      match Wv.Buf.fileName (← Wv.bytesOfHex name) with
+      | some w => pure (s, "ok " ++ Wv.hexOfBytes w)
+      | none => pure (s, "err")
+  | ["c19buf", "finddata", name] => do
+      let r := Wv.Buf.findData (← Wv.bytesOfHex name)
+      pure (s, s!"{Wv.hexOfBytes r.1} {r.2}")
   | _ => none
 
 end Wv.Drv
